@@ -22,6 +22,7 @@ RULE = ('(i) idempotence: expr_simp of a memo-free copy of expr_simp(e) must be 
         'distinct operands (ii), the simplifier changed the tree (i), or the item produced output in every process (iii).')
 RULE += ' Round 6: 19 operands carrying one, two or three symbols (sums and differences) lifted, simplified, rendered and emulated under every hash seed.'
 RULE += ' Round 7: operand twins whose names differ by zero padding, digit runs or punctuation (var_8 / var_08, r2 / r10, a_b / ab).'
+RULE += ' Round 8: stores written with the address operands in both orders must simplify, as whole assignments, to one form whose parts are the simplified parts; after emul_lines every value bound in the machine state (fixed blocks with foldable remainders of partly overwritten cells, and random blocks) is a fixed point of the simplifier.'
 ASSUMPTIONS = ['the corpus generator is hash-seed independent (blake2b-derived RNG, sorted iteration in the harness)']
 
 HASH_SEEDS_QUICK = [0, 1, 2, 3, 7, 42, 12345]
